@@ -27,6 +27,17 @@ CLAIMS = {
     ),
 }
 
+CLAIMS["C14"] = (
+    "exhaustive static comparison of model enums/dataclasses with the parsed wire schema; pairing derived from converters, tables and annotations",
+    "Decides statically, for every model enum and dataclass of the current tree: (R1) each model enum paired with a wire enum (by converter, "
+    "by annotated command parameter, or by name) has exactly the wire numbers, no aliases, and wire name = constant prefix + model name; "
+    "(R2) each model class paired with a wire message has exactly its field names; (R3) converter kind matches wire field kind and the "
+    "shared conversion machinery (convert/convert_list/from_pb/__post_init__/from_dict/to_dict, float-fix guard and digit count) keeps its "
+    "shape. These are the table clauses of the property (finite, fully enumerated). Not decided: rounding numerics and value round-trips "
+    "over all inputs (runtime values).",
+    "DESIGN.md section 5 C14",
+)
+
 UNDER_CONSTRUCTION = "rule set not built yet in this round (see DESIGN.md section 5 for the planned static rules)"
 
 NOT_APPLICABLE = {}
